@@ -194,10 +194,23 @@ pub fn items<'tcx>(tcx: TyCtxt<'tcx>) -> J {
                 for (p, _) in preds.skip_binder() {
                     pv.push(J::s(p.to_string()));
                 }
+                // bounds declared on the trait's associated types (`type Transformed: Clone + Send + Sync;`)
+                let mut ab = Vec::new();
+                for it in tcx.associated_items(did.to_def_id()).in_definition_order() {
+                    if it.tag() != ty::AssocTag::Type || it.is_impl_trait_in_trait() {
+                        continue;
+                    }
+                    let mut bs = Vec::new();
+                    for (c, _) in tcx.explicit_item_bounds(it.def_id).skip_binder() {
+                        bs.push(J::s(c.to_string()));
+                    }
+                    ab.push(J::obj().with("name", J::s(it.name().to_string())).with("bounds", J::Arr(bs)));
+                }
                 impls.push(
                     J::obj()
                         .with("path", J::s(tcx.def_path_str(did.to_def_id())))
                         .with("is_trait_decl", true.into())
+                        .with("assoc_bounds", J::Arr(ab))
                         .with("supers", J::Arr(pv))
                         .with("file", J::s(l.file))
                         .with("line", l.line.into()),
